@@ -1974,7 +1974,20 @@ impl Scenario for StatsTruth {
             0 => {
                 let mp = *rng.pick(&[0usize, 64, 1000, 10_000]);
                 // sane first-packet values on every packet keep the stream free of documented fatals
-                gen_arbitrary(&mut rng, n, mp, nl)
+                let b = gen_arbitrary(&mut rng, n, mp, nl);
+                // 1 in 20: header-only packets - on one link, or everywhere
+                if rng.chance(1, 20) {
+                    let w0 = walk(&b);
+                    let everywhere = rng.chance(1, 2);
+                    let link = w0.pkts.first().map(|p| p.rdh.link_id).unwrap_or(0);
+                    rebuild_stream(&b, &mut |_, r, payload| {
+                        if everywhere || r.link_id == link {
+                            payload.clear();
+                        }
+                    })
+                } else {
+                    b
+                }
             }
             1 => {
                 let mw = *rng.pick(&[3usize, 20, 200]);
@@ -2574,7 +2587,7 @@ impl Scenario for Views {
         "case = well-framed stream: (a) arbitrary header values (all detector-field and trigger bits) + random ITS \
          words in both data formats with every flag combination of TDH/TDT/DDW0 (random bits), known and unknown \
          IDs, or (b) conforming multi-link streams (> 100 packets in part of the cases so that per-batch headers \
-         repeat); x the three views x filter (present / absent / none) x {file, pipe} x seeded schedules x benign \
+         repeat; a quarter of the `view rdh` streams with filler bytes between memory size and offset-to-next); x the three views x filter (present / absent / none) x {file, pipe} x seeded schedules x benign \
          short writes / EINTR on stdout. Oracle: rows parsed back from captured stdout: one row per walker RDH and \
          per status word (and per data word in the data view; unknown IDs as an error line) in order, offset == \
          walker offset, raw bytes == input bytes, decoded attributes (stave, trigger kind, link, lane status, \
@@ -2608,9 +2621,29 @@ impl Scenario for Views {
             let sane = rng.chance(1, 2);
             gen_framed_words(&mut rng, n, mw, nl, pu, sane)
         };
-        let f = filter_from_walk(&input, &mut rng);
         // (view and workload kind are drawn independently of each other)
         let v = VIEW_MODES[((case / 3) % 3) as usize];
+        // `view rdh` walks the chain by offset-to-next alone: 1 in 4 of its generated streams store the packets in
+        // slots - filler bytes between the end of a payload (memory size) and the next RDH (offset-to-next)
+        let mut input = input;
+        if v == VIEW_MODES[0] && !from_corpus && rng.chance(1, 4) {
+            let w = walk(&input);
+            if w.end == itsgen::walker::WalkEnd::Clean && w.pkts.iter().all(|p| p.rdh.memory_size == p.rdh.offset_next) {
+                let mut out: Vec<u8> = Vec::with_capacity(input.len() * 2);
+                for p in &w.pkts {
+                    let mut r = p.rdh.clone();
+                    let gap = (rng.range(1, 200) as usize).min(10_064usize.saturating_sub(r.memory_size as usize));
+                    r.offset_next = r.memory_size + gap as u16;
+                    out.extend_from_slice(&r.to_bytes());
+                    out.extend_from_slice(&input[p.payload.clone()]);
+                    let mut fill = vec![0u8; gap];
+                    rng.fill(&mut fill);
+                    out.extend_from_slice(&fill);
+                }
+                input = out;
+            }
+        }
+        let f = filter_from_walk(&input, &mut rng);
         let mut parts = s(v);
         parts.extend(f.args());
         let im = pick_input_mode(&mut rng);
